@@ -450,4 +450,42 @@ example : ∃ (s : Step (List (String × Nat)) Nat) (o : List (String × Nat)) (
       [] [("y", ⟨fun o => o.lookup "AMOUNT", fun _ => .ok ["AMOUNT"], fun _ => .ok ["AMOUNT"]⟩)],
    [("AMOUNT", 3)], ["AMOUNT"], rfl, rfl, by simp⟩
 
+/-! ## non-vacuity: concrete pipelines satisfying the hypotheses used above -/
+
+section examples
+/-- `@pipeline_step def s(x, k=Option(key)): return x + k` on `Nat` with options as an association list -/
+def exStep (tag : Nat) (key : String) : Step (List (String × Nat)) Nat :=
+  .partialApp tag
+    (fun pos kw => match pos, kw with
+      | [x], [(_, k)] => .ok (x + k)
+      | _, _ => .error (.raised "TypeError"))
+    [] [("k", ⟨fun o => o.lookup key, fun o => if (o.lookup key).isSome then .ok [key] else .error .keyNotFound,
+              fun _ => .ok [key]⟩)]
+
+def exP : Pipeline (List (String × Nat)) Nat := .single (exStep 1 "A")
+def exQ : Pipeline (List (String × Nat)) Nat := .cons (exStep 3 "C") (.single (exStep 2 "B"))
+def exO : List (String × Nat) := [("A", 1), ("B", 10), ("C", 100)]
+
+-- hypotheses of steps_add / iter_add / add_assoc / add_empty_left / add_empty_steps
+example : exP.WF ∧ exQ.WF ∧ exP.empty = false ∧ exQ.empty = false := ⟨trivial, ⟨rfl, trivial⟩, rfl, rfl⟩
+example : ((exP + exQ).iter.map Step.tag?) = [some 1, some 2, some 3] := rfl
+example : (((exP + exQ) + exP).iter.map Step.tag?) = ((exP + (exQ + exP)).iter.map Step.tag?) := rfl
+example : (((new : Pipeline (List (String × Nat)) Nat) + exQ).iter.map Step.tag?) = [some 2, some 3] := rfl
+example : (new : Pipeline (List (String × Nat)) Nat).empty = true := rfl
+-- hypothesis of transform_add_of_evaluable, and both sides of transform_add_ok
+example : (exQ.evaluate exO).isSome = true := rfl
+example : (exP + exQ).transform 5 exO = .ok 116 := rfl
+example : exP.transform 5 exO = .ok 6 ∧ exQ.transform 6 exO = .ok 116 := ⟨rfl, rfl⟩
+-- a parameter that cannot be evaluated: the whole evaluation fails, whatever the bracketing
+example : (exP + exQ).transform 5 [("A", 1), ("C", 100)] = .error .evaluation := rfl
+-- hypotheses of pipeline_keys_mem / pipeline_keys_ok / pipeline_explain_mem
+example : (exP + exQ).keys exO = .ok ["C", "B", "A"] := rfl
+example : (exP + exQ).explain [] = .ok ["C", "B", "A"] := rfl
+example : (exP + exQ).keys [("A", 1)] = .error .keyNotFound := rfl
+-- e >> p
+example : applyEval (Param.const 5) (exP + exQ) exO = .ok 116 := rfl
+example : applyEval ⟨fun _ => none, fun _ => .error .keyNotFound, fun _ => .ok ["S"]⟩ (exP + exQ) exO
+    = .error .evaluation := rfl
+end examples
+
 end Labrea.PipelineLL.C13
